@@ -26,6 +26,8 @@ CHECKS = {
          "6", "bounded-exhaustive enumeration of pairs with RFC 7386 reference algorithm"),
  "C12": ("all ordered (target, patch) pairs of a document universe with nulls and empty objects at every depth: ReadMergeString + Patch compared exactly with RFC 7386 MergePatch",
          "6", "bounded-exhaustive enumeration of (target, patch) with RFC 7386 reference algorithm"),
+ "C10": ("jd's own RenderPatch output for every list-mode diff of the universes and every patch within 1 (thorough: 2) subset-preserving deviations of it, plus a complete small-scope enumeration of all 1- and 2-group patches (e in {0,1,2,-}, r,s<=2, context tests present/absent, values {1,2}, root and nested) on all arrays of length <= 3: whenever ReadPatchString+Patch succeeds the independent RFC 6902 evaluator must succeed with the same result",
+         "6", "deviation-bounded and small-scope exhaustive enumeration of JSON Patch programs x targets with independent RFC 6902 evaluator"),
 }
 NOT_YET = {}
 def main():
